@@ -142,14 +142,12 @@ theorem transact_asset (p : Position α) (t : Txn α) : (p.transact t).1.asset =
   unfold Position.transact
   split
   · rfl
-  · have h1 : (if 0 < t.qty then p.transactBuy (ofInt t.qty) t.price t.commission
-        else p.transactSell (ofInt (-t.qty)) t.price t.commission).asset = p.asset := by
-      split <;> rfl
-    generalize (if 0 < t.qty then p.transactBuy (ofInt t.qty) t.price t.commission
-        else p.transactSell (ofInt (-t.qty)) t.price t.commission) = p1 at h1
-    have h2 := updatePrice_asset p1 t.price t.time
-    simp only
-    split <;> rename_i h <;> rw [h] at h2 <;> simp only at h2 ⊢ <;> rw [h2, h1]
+  · have h := updatePrice_asset p t.price t.time
+    rcases hu : p.updatePrice t.price t.time with ⟨p1, _ | e⟩
+    · rw [hu] at h
+      dsimp only at h ⊢
+      split <;> exact h
+    · rw [hu] at h; exact h
 
 theorem set_assets (ps : Positions α) (p : Position α) :
     (Positions.set ps p).map (·.asset) = ps.map (·.asset) := by
